@@ -424,4 +424,211 @@ theorem iterNameIndices_ok (y : By) : ∀ x ∈ y.iterNameIndices,
   refine ⟨h, by omega, by omega, ?_⟩
   rw [if_pos (by omega)]
 
+/-! ### references handed out -/
+
+theorem bind_eq_ok {α β} {x : Out α} {f : α → Out β} {b : β} (h : x.bind f = .ok b) :
+    ∃ a, x = .ok a ∧ f a = .ok b := by
+  cases x with
+  | ok a => exact ⟨a, rfl, h⟩
+  | _ => cases h
+
+theorem mkTab_sound {img : Img} {r : Out Ref} {cnt size : Nat} {t : Tab}
+    (hr : ∀ ref, r = .ok ref → RefOK img ref ∧ ref.len = size * cnt ∧ ref.align = size)
+    (h : mkTab r cnt = .ok t) : Tab.OK img t size ∧ (t.cnt = cnt ∨ t.cnt = 0) := by
+  unfold mkTab at h
+  split at h
+  next ref =>
+    cases h
+    obtain ⟨⟨h1, h2⟩, h3, h4⟩ := hr ref rfl
+    refine ⟨.inr ⟨rfl, ?_, ?_⟩, .inl rfl⟩
+    · show ref.off + size * cnt ≤ _
+      omega
+    · show (img.base + ref.off) % size = 0
+      rw [← h4]; exact h2
+  next => cases h; exact ⟨.inl ⟨rfl, rfl⟩, .inr rfl⟩
+  all_goals cases h
+
+theorem by_ok {e : Exports} {y : By} (h : e.by = .ok y) : y.exp = e ∧ y.WF := by
+  unfold Exports.by at h
+  cases hf : mkTab e.functions e.nFns with
+  | ok f =>
+    rw [hf] at h
+    cases hn : mkTab e.names e.nNames with
+    | ok n =>
+      rw [hn] at h
+      cases hi : mkTab e.nameIndices e.nNames with
+      | ok i =>
+        rw [hi] at h
+        cases h
+        refine ⟨rfl, ⟨?_, ?_, ?_⟩⟩
+        · exact (mkTab_sound (fun ref hr => dervaSlice_sound e.v hr) hf).1
+        · exact (mkTab_sound (fun ref hr => dervaSlice_sound e.v hr) hn).1
+        · exact (mkTab_sound (fun ref hr => dervaSlice_sound e.v hr) hi).1
+      | _ => rw [hi] at h; cases h
+    | _ => rw [hn] at h; cases h
+  | _ => rw [hf] at h; cases h
+
+theorem tryFrom_ok {v : View} {e : Exports} (h : tryFrom v = .ok e) :
+    e.v = v ∧ RefOK v.img e.image ∧ v.dataDir 0 = some (e.ddVA, e.ddSize) := by
+  unfold tryFrom at h
+  split at h
+  · cases h
+  next va size hd =>
+    cases hs : v.derva (.rva va) 40 4 with
+    | ok r =>
+      rw [hs] at h
+      cases h
+      obtain ⟨⟨h1, h2⟩, h3, h4⟩ := derva_sound v hs
+      refine ⟨rfl, ⟨?_, ?_⟩, hd⟩
+      · show r.off + 40 ≤ _
+        omega
+      · show (v.img.base + r.off) % 4 = 0
+        rw [← h4]; exact h2
+    | _ => rw [hs] at h; cases h
+
+theorem symbolFromRva_sound (e : Exports) {o : Nat} {x : Export} (h : e.symbolFromRva o = .ok x) :
+    (x = .symbol ⟨o, 4, 4⟩ ∧ le32 e.b o ≠ 0 ∧ e.isForwarded (le32 e.b o) = false) ∨
+    (∃ c, x = .forward c ∧ e.v.dervaCStr (.rva (le32 e.b o)) = .ok c ∧ e.isForwarded (le32 e.b o) = true) := by
+  unfold Exports.symbolFromRva at h
+  dsimp only at h
+  split at h
+  · cases h
+  next h0 =>
+    split at h
+    next hf =>
+      cases hc : e.v.dervaCStr (.rva (le32 e.b o)) with
+      | ok c => rw [hc] at h; cases h; exact .inr ⟨c, rfl, rfl, hf⟩
+      | _ => rw [hc] at h; cases h
+    next hf =>
+      cases h
+      exact .inl ⟨rfl, h0, by simpa using hf⟩
+
+theorem index_sound {y : By} (hw : y.WF) {i : Nat} {x : Export} (h : y.index i = .ok x) :
+    RefOK y.exp.v.img x.ref ∧ i < y.fns.cnt := by
+  unfold By.index at h
+  split at h
+  next hi =>
+    refine ⟨?_, hi⟩
+    rcases symbolFromRva_sound _ h with ⟨rfl, _, _⟩ | ⟨c, rfl, hc, _⟩
+    · rcases hw.fns with ⟨_, h0⟩ | ⟨_, h1, h2⟩
+      · omega
+      · refine ⟨?_, ?_⟩
+        · show y.fns.off + 4 * i + 4 ≤ _
+          have : y.fns.off + 4 * y.fns.cnt ≤ y.exp.v.img.bytes.size := h1
+          omega
+        · show (y.exp.v.img.base + (y.fns.off + 4 * i)) % 4 = 0
+          have : (y.exp.v.img.base + y.fns.off) % 4 = 0 := h2
+          omega
+    · exact (dervaCStr_sound _ hc).1
+  · cases h
+
+theorem ordinal_sound {y : By} (hw : y.WF) {o : Nat} {x : Export} (h : y.ordinal o = .ok x) :
+    RefOK y.exp.v.img x.ref := by
+  unfold By.ordinal at h
+  split at h
+  · cases h
+  · exact (index_sound hw h).1
+
+theorem hint_sound {y : By} (hw : y.WF) {hn : Nat} {x : Export} (h : y.hint hn = .ok x) :
+    RefOK y.exp.v.img x.ref := by
+  unfold By.hint at h
+  split at h
+  · exact (index_sound hw h).1
+  · cases h
+
+theorem nameOfHint_sound {y : By} {hn : Nat} {c : Ref} (h : y.nameOfHint hn = .ok c) :
+    RefOK y.exp.v.img c ∧ hn < y.names.cnt := by
+  unfold By.nameOfHint at h
+  split at h
+  next hi => exact ⟨(dervaCStr_sound _ h).1, hi⟩
+  · cases h
+
+theorem nameLinearLoop_sound {y : By} (hw : y.WF) (q : List Nat) :
+    ∀ n h x, y.nameLinearLoop q n h = .ok x → RefOK y.exp.v.img x.ref := by
+  intro n
+  induction n with
+  | zero => intro h x hx; cases hx
+  | succ n ih =>
+    intro h x hx
+    unfold By.nameLinearLoop at hx
+    split at hx
+    · split at hx
+      · exact hint_sound hw hx
+      · exact ih _ _ hx
+    · exact ih _ _ hx
+    all_goals cases hx
+
+theorem nameLoop_sound {y : By} (hw : y.WF) (q : List Nat) (lower upper : Nat) {x : Export}
+    (h : y.nameLoop q lower upper = .ok x) : RefOK y.exp.v.img x.ref := by
+  fun_induction By.nameLoop y q lower upper with
+  | case1 lower => cases h
+  | case2 lower upper hne hlt => cases h
+  | case3 lower upper hne hlt i hi c hc s hqs ih => exact ih h
+  | case4 lower upper hne hlt i hi c hc s hqs hsq ih => exact ih h
+  | case5 lower upper hne hlt i hi c hc s hqs hsq hix => exact (index_sound hw h).1
+  | case6 => cases h
+  | case7 lower upper hne hlt i hi e hc => cases h
+  | case8 lower upper hne hlt i hi s hc => cases h
+  | case9 lower upper hne hlt i hi s hc => cases h
+  | case10 lower upper hne hlt i hi hc => cases h
+  | case11 lower upper hne hlt i hi => cases h
+
+theorem hintName_sound {y : By} (hw : y.WF) {hn : Nat} {q : List Nat} {x : Export}
+    (h : y.hintName hn q = .ok x) : RefOK y.exp.v.img x.ref := by
+  unfold By.hintName at h
+  split at h
+  next e he =>
+    split at h
+    · split at h
+      · cases h; exact hint_sound hw he
+      · exact nameLoop_sound hw _ _ _ h
+    · exact nameLoop_sound hw _ _ _ h
+    all_goals cases h
+  · exact nameLoop_sound hw _ _ _ h
+  all_goals cases h
+
+theorem import_sound {y : By} (hw : y.WF) {i : ImportQ} {x : Export}
+    (h : y.import i = .ok x) : RefOK y.exp.v.img x.ref := by
+  cases i with
+  | byName hn q => exact hintName_sound hw h
+  | byOrdinal o => exact ordinal_sound hw h
+
+theorem nameLookup_sound {y : By} {i hn : Nat} {c : Ref} (h : y.nameLookup i = .ok (.byName hn c)) :
+    RefOK y.exp.v.img c ∧ hn < y.names.cnt := by
+  unfold By.nameLookup at h
+  split at h
+  next h' hp =>
+    split at h
+    next hlt =>
+      cases hc : y.exp.v.dervaCStr (.rva (y.nameAt h')) with
+      | ok c' =>
+        rw [hc] at h
+        cases h
+        exact ⟨(dervaCStr_sound _ hc).1, hlt⟩
+      | _ => rw [hc] at h; cases h
+    · cases h
+  · cases h
+
+theorem getExport_ok {v : View} {q : Query} {x : Export} (h : getExport v q = .ok x) :
+    ∃ e y, tryFrom v = .ok e ∧ e.by = .ok y ∧ y.exp.v = v ∧ y.WF ∧
+      (match q with
+       | .name n => y.name n
+       | .ordinal o => y.ordinal o
+       | .import i => y.import i) = .ok x := by
+  unfold getExport at h
+  obtain ⟨e, he, h⟩ := bind_eq_ok h
+  obtain ⟨y, hy, h⟩ := bind_eq_ok h
+  obtain ⟨hev, _, _⟩ := tryFrom_ok he
+  obtain ⟨hye, hw⟩ := by_ok hy
+  exact ⟨e, y, he, hy, by rw [hye, hev], hw, h⟩
+
+theorem getExport_sound {v : View} {q : Query} {x : Export} (h : getExport v q = .ok x) :
+    RefOK v.img x.ref := by
+  obtain ⟨e, y, _, _, hv, hw, h⟩ := getExport_ok h
+  rw [← hv]
+  cases q with
+  | name n => exact nameLoop_sound hw _ _ _ h
+  | ordinal o => exact ordinal_sound hw h
+  | «import» i => exact import_sound hw h
+
 end Pelite.Exports
